@@ -27,7 +27,22 @@ def tangent(G):
     return G - G.mean(1, keepdims=True)
 
 
+class _ArraySubclass(np.ndarray):
+    """np.asarray of an instance is a base-class view of the same buffer (as for np.memmap)"""
+
+
 def evaluate(g, P, A, label):
+    if A is not None and len(P) <= 64 and isinstance(A, np.ndarray):
+        # the affinity is handed over in a buffer-sharing container and stays the caller's: every evaluation of one relation
+        # reads the same numbers
+        keep = A.copy()
+        A = A.copy().view(_ArraySubclass)
+        try:
+            g(P, A)
+        except Exception as e:
+            raise Violation(f"{label}: evaluating the score raised {type(e).__name__}: {e}")
+        if not np.array_equal(np.asarray(A), keep):
+            raise Violation(f"{label}: evaluating the score modified the caller's affinity matrix (an ndarray subclass)")
     try:
         v, gr = g(P, A, return_grad=True)
     except Exception as e:  # the objectives are total functions of (P, affinity) on the closed simplex
